@@ -15,6 +15,7 @@
 -/
 import PopsModel.Lemmas.Det
 import PopsModel.Model.DetPred
+import PopsModel.Model.DetCtor
 import PopsModel.Analysis.DetQuota
 import PopsModel.Analysis.DetLaws
 namespace Pops
@@ -220,6 +221,59 @@ theorem C14_no_window_example :
     · have : ⌈(-3 : ℝ) / 1⌉ = -3 := by
         rw [Int.ceil_eq_iff]; norm_num
       rw [this]; norm_num
+
+/-! ### Parameters outside the domain are rejected -/
+
+/-- **Constructor validation.** For every law, the constructor of its class (`lawCtorCheck`, the
+    `if (...) throw` of each `*_kernel.hpp`) returns `invalid_argument` iff one of the parameters it
+    validates is rejected by its check (`Law.scaleCheck`, `Law.shapeCheck`: `≤ 0` for `positive`, `= 0`
+    for `nonzero`), and never any other error. Consequences: for the seven classes that validate
+    with `<= 0` (Cauchy, exponential, Weibull, log-normal, logistic, gamma, exponential power) the
+    constructor is rejected iff the scale - or, where the class has one, the shape - is `≤ 0`; for
+    every law, parameters in the property's domain are accepted and a zero scale (zero `xmin` for the
+    power law) is rejected. The normal and hyperbolic-secant classes accept a negative scale and the
+    power law any `alpha` and a negative `xmin`: these are not validated by the code. -/
+theorem C14_parameters_rejected (law : Law) (scale shape : ℚ) :
+    (lawCtorCheck law scale shape = .error .invalid_argument ↔
+        law.scaleCheck.rejects scale ∨ law.shapeCheck.rejects shape) ∧
+    (∀ e, lawCtorCheck law scale shape = .error e → e = .invalid_argument) ∧
+    (law.validatesPositivity = true →
+        (lawCtorCheck law scale shape = .error .invalid_argument ↔
+          scale ≤ 0 ∨ (law.usesShape = true ∧ shape ≤ 0))) ∧
+    (ParamsInDomain law scale shape → lawCtorCheck law scale shape = .ok ()) ∧
+    (law ≠ .powerlaw → lawCtorCheck law 0 shape = .error .invalid_argument) ∧
+    (lawCtorCheck .powerlaw scale 0 = .error .invalid_argument) := by
+  refine ⟨?_, ?_, ?_, ?_, ?_, ?_⟩
+  · cases law <;> simp only [lawCtorCheck, Law.scaleCheck, Law.shapeCheck, ParamCheck.rejects] <;>
+      split <;> simp_all [or_comm]
+  · intro e he
+    cases law <;> simp only [lawCtorCheck] at he <;> split at he <;> simp_all
+  · intro hv
+    cases law <;> simp only [Law.validatesPositivity] at hv <;> try (exact absurd hv (by decide))
+    all_goals (simp only [lawCtorCheck, Law.usesShape]; split <;> simp_all <;> tauto)
+  · rintro ⟨hs, hh⟩
+    cases law <;> simp only [lawCtorCheck, Law.usesShape] at * <;> split <;> simp_all <;> grind
+  · intro hl
+    cases law <;> simp_all [lawCtorCheck]
+  · simp [lawCtorCheck]
+
+/-- Non-trivial instances: a Weibull scale of 2 with a shape of 0 is rejected because of the shape
+    alone (the `||` of the guard), an exponential-power shape of exactly 0 is rejected (`<=`, not `<`),
+    in-domain parameters are accepted, and a negative normal sigma is NOT rejected. -/
+example : lawCtorCheck .weibull 2 0 = .error .invalid_argument ∧
+    lawCtorCheck .weibull 0 2 = .error .invalid_argument ∧
+    lawCtorCheck .exppower (3 / 2) 0 = .error .invalid_argument ∧
+    lawCtorCheck .gamma (-1 / 2) 3 = .error .invalid_argument ∧
+    lawCtorCheck .weibull 2 (3 / 2) = .ok () ∧ ParamsInDomain .weibull 2 (3 / 2) ∧
+    lawCtorCheck .normal (-1) 1 = .ok () := by
+  refine ⟨by simp [lawCtorCheck], by simp [lawCtorCheck], by simp [lawCtorCheck], ?_, ?_, ?_, ?_⟩
+  · simp [lawCtorCheck]
+  · simp [lawCtorCheck]
+  · exact ⟨by norm_num, fun _ => by norm_num⟩
+  · simp [lawCtorCheck]
+
+example : (lawCtorCheck .weibull 2 0 = .error .invalid_argument) :=
+  ((C14_parameters_rejected .weibull 2 0).2.2.1 rfl).mpr (Or.inr ⟨rfl, by norm_num⟩)
 
 /-! ### The hypotheses are satisfiable -/
 
